@@ -137,12 +137,21 @@ func (r *run) callSSA(fn *ssa.Function, args []Value, env []Value) Value {
 			if r.sch != nil && r.sch.cur != nil {
 				key = fmt.Sprintf("%s#g%d", name, r.sch.cur.id)
 			}
-			if r.inSubst[key] == 0 {
+			r.substMu.Lock()
+			enter := r.inSubst[key] == 0
+			if enter {
 				if r.inSubst == nil {
 					r.inSubst = map[string]int{}
 				}
 				r.inSubst[key]++
-				defer func() { r.inSubst[key]-- }()
+			}
+			r.substMu.Unlock()
+			if enter {
+				defer func() {
+					r.substMu.Lock()
+					r.inSubst[key]--
+					r.substMu.Unlock()
+				}()
 				return r.callSSA(sub, args, nil)
 			}
 		}
